@@ -249,6 +249,12 @@ def run(ctx):
                         if cr[0] == 'call' and cr[1].endswith('PartialEq>::eq') and 'ChessMove' in cr[1]:
                             if len(mm['caps']) == 1 and norm(mm['caps'][0]) == m['m']:
                                 okm = True
+            # `board.legal(m)` is that membership test by definition (C01.R1 holds it to it)
+            for c, tv in gs:
+                if tv is True and match(call('board::Board::legal', ('param', 1), m['m']), c) is not None:
+                    okm = True
+                if tv is False and c[0] == 'un' and c[1] == 'Not' and match(call('board::Board::legal', ('param', 1), m['m']), c[2]) is not None:
+                    okm = True
             castle_ok = okm if castle_ok is None else (castle_ok and okm)
             if not okm:
                 ctx.violation('C12.R2', KEY + ':ok-unchecked', 'an Ok value is returned without a membership test in MoveGen::new_legal(board): ' + sh(v, 200),
@@ -289,6 +295,8 @@ def run(ctx):
         m = match(call('core::option::Option::<T>::is_some', V('x')), c)
         if m is not None and m['x'] == FOUND:
             return ('found', tv)
+        if c[0] == 'discr' and c[1] == FOUND:
+            return ('found', tuple(g['vals']) == (1,))
         if c[0] == 'discr' and c[1][0] in ('var', 'ite', 'agg'):
             return ('opt', c[1], tuple(g['vals']))
         lits = str_lits(c)
